@@ -14,6 +14,7 @@ import (
 	"regexp"
 	"runtime"
 	"sort"
+	"strconv"
 	"strings"
 	"sync"
 	"sync/atomic"
@@ -26,6 +27,7 @@ import (
 	"rare/pkg/matchers"
 	"rare/pkg/matchers/dissect"
 	"rare/pkg/matchers/fastregex"
+	"rare/pkg/minijson"
 	"rare/pkg/verifhook"
 
 	"verifharness/internal/ref"
@@ -44,6 +46,7 @@ type Input struct {
 	Data  []byte     `json:"data"`
 	Steps []ReadStep `json:"steps,omitempty"` // reader mode only
 	Gz    bool       `json:"gz,omitempty"`    // files mode with Cfg.Gunzip: the file on disk holds Data gzip-compressed
+	Gone  bool       `json:"gone,omitempty"`  // files mode: the path is named but nothing exists there (cannot be opened; contributes no lines)
 }
 
 type MatcherSpec struct {
@@ -122,6 +125,31 @@ func (s *Ctx) GetKey(k string) string {
 			parts = append(parts, s.GetMatch(i))
 		}
 		return strings.Join(parts, "\x00")
+	case ".", "#", ".#", "#.":
+		// the JSON views, built from this line alone with the repository's own encoder (what the encoder does with
+		// one value is C16's subject; here only "the view of THIS line" matters): named members in name order,
+		// then the non-empty numbered groups
+		var jb minijson.JsonObjectBuilder
+		jb.OpenEx(64)
+		if k != "#" {
+			names := make([]string, 0, len(s.Names))
+			for n := range s.Names {
+				names = append(names, n)
+			}
+			sort.Strings(names)
+			for _, n := range names {
+				jb.WriteInferred(n, s.GetMatch(s.Names[n]))
+			}
+		}
+		if k != "." {
+			for i := 0; i < len(s.Idx)/2; i++ {
+				if v := s.GetMatch(i); v != "" {
+					jb.WriteInferred(strconv.Itoa(i), v)
+				}
+			}
+		}
+		jb.Close()
+		return jb.String()
 	}
 	if i, ok := s.Names[k]; ok {
 		return s.GetMatch(i)
@@ -385,6 +413,10 @@ func Materialise(w *Workload, dir string) ([]string, error) {
 		p := filepath.Join(dir, w.Inputs[i].Name)
 		if err := os.MkdirAll(filepath.Dir(p), 0o755); err != nil {
 			return nil, err
+		}
+		if w.Inputs[i].Gone {
+			paths = append(paths, p)
+			continue
 		}
 		data := w.Inputs[i].Data
 		if w.Inputs[i].Gz && w.Cfg.Gunzip {
@@ -717,8 +749,14 @@ func JudgeC01(w *Workload, dir string, truth []LineTruth, obs *Observed) []Findi
 			}
 		}
 	}
-	if obs.ReadErrors != 0 {
-		add("read-errors", "batcher reports %d read errors on readable inputs", obs.ReadErrors)
+	gone := 0
+	for i := range w.Inputs {
+		if w.Inputs[i].Gone {
+			gone++
+		}
+	}
+	if obs.ReadErrors != gone {
+		add("read-errors", "batcher reports %d read errors; %d of the %d named inputs cannot be opened, the others are readable", obs.ReadErrors, gone, len(w.Inputs))
 	}
 	return out
 }
